@@ -150,6 +150,7 @@ func (c *fnCtx) function() {
 		fieldNames, fieldTypes = structFields(ts.Type.(*ast.StructType))
 	}
 	c.typeParams(fd.Type.TypeParams)
+	c.g.desugarLabels(fd)
 	c.body = fd.Body
 	if rest, ok := c.mutexPrologue(fd, fieldTypes); ok {
 		c.body = &ast.BlockStmt{Lbrace: fd.Body.Lbrace, List: rest, Rbrace: fd.Body.Rbrace}
@@ -383,7 +384,7 @@ func (c *fnCtx) function() {
 	}
 	usage := c.sliceUsage(fd)
 	mapMut, anyMapMut := c.mapMutations(c.body)
-	c.noMapMut = !anyMapMut
+	c.noMapMut, c.mapMut = !anyMapMut, mapMut
 	plist := fd.Type.Params.List
 	if fn.namedRecv {
 		plist = append([]*ast.Field{fd.Recv.List[0]}, plist...)
@@ -1098,6 +1099,11 @@ func (c *fnCtx) effects(nodes ...ast.Node) effSet {
 				}
 				if isBuiltin(v, "clear", 1) {
 					wr(c.rootVar(v.Args[0]))
+				}
+				if isBuiltin(v, "len", 1) {
+					if x := c.plainVar(v.Args[0]); x != nil && x.typ.k == "map" {
+						rd(c.mapEqbVar(x.typ))
+					}
 				}
 				if isBuiltin(v, "cap", 1) {
 					if x := c.plainVar(v.Args[0]); x != nil && x.role == "field" && c.fat[x] != nil {
